@@ -302,7 +302,7 @@ ESC_PIECES = ['\\x41', '\\x7f', '\\xe9', '\\xff', '\\x00', '\\u0041', '\\u00e9',
               '\\1234', '\\N{DIGIT ONE}', '\\N{LATIN SMALL LETTER E WITH ACUTE}', '\\N{GRINNING FACE}', '\\\\', "\\'",
               '\\"', '\\a', '\\b', '\\f', '\\n', '\\r', '\\t', '\\v', '\\z', '\\8', '\\9', '\\ ', '\\e', '\\(', '\\$',
               '\\`', 'a', 'Z', '1', ' ', 'é', '中', '\U0001F600', 'x41', 'u0041', '{', '}', 'N', '\\\\x41', '\\\\u0041',
-              '\\\\\\\\', '\\\\n', "\\\\\\'", '\t', '%', '#']
+              '\\\\\\\\', '\\\\n', "\\\\\\'", '\t', '%', '#', '\\é', '\\中', '\\€', '\\\U0001F600', '\\ÿ', '\\Ā', '\\\\€', '\\\\\\中']
 
 
 def _esc(spec, mon, rec):
